@@ -1,6 +1,6 @@
 #!/bin/bash
 # run every check at several seeds on the unchanged tree; print exit codes (all must be 0)
-cd /verif
+cd "$(dirname "$0")/.."
 TIER=${TIER:-quick}
 for seed in ${SEEDS:-0 1 7 12345}; do
   for p in C01 C02 C03 C04 C05 C06 C07 C08 C09 C10 C11 C12 C13 C14 C15 C16; do
